@@ -202,6 +202,35 @@ func (e *Engine) invoke(st *State, ci *callInfo, isDeferred, isSpawn bool) []mul
 			return []multiOut{{st, nil}}
 		}
 		switch name {
+		case "sync.WaitGroup.Done", "sync.WaitGroup.Wait":
+			// a WaitGroup armed with Add(1) is a completion signal like a channel that is closed once: Done ≙ close, Wait ≙ receive
+			// (the location the WaitGroup was taken from is described like the channel's would be)
+			if ci.recv != nil && !isDeferred {
+				kind := EvClose
+				if name == "sync.WaitGroup.Wait" {
+					kind = EvRecv
+				}
+				wev := &Event{Kind: kind, Pos: pos, Path: ci.recv.Loc(), Recv: ci.recv, Note: "waitgroup"}
+				if (ci.recv.Kind == KAddr || ci.recv.Kind == KField) && ci.recv.Field != nil {
+					wev.Path, wev.Field, wev.Key = ci.recv.Path, ci.recv.Field, ci.recv.Src
+				} else if r := st.lastReadOf(ci.recv); r != nil {
+					wev.Path, wev.Field, wev.Key = r.Path, r.Field, r.Recv
+				} else if selx, ok := ast.Unparen(ci.call.Fun).(*ast.SelectorExpr); ok {
+					// x.f.Done(): the WaitGroup is field f of x
+					if inner, ok := ast.Unparen(selx.X).(*ast.SelectorExpr); ok {
+						if sl := e.Info.Selections[inner]; sl != nil && sl.Kind() == types.FieldVal {
+							if fv, _ := sl.Obj().(*types.Var); fv != nil {
+								if outs := e.eval(st, inner.X); len(outs) == 1 {
+									st = outs[0].st
+									wev.Field, wev.Key = fv, outs[0].v
+								}
+							}
+						}
+					}
+				}
+				e.emit(st, wev)
+				return []multiOut{{st, nil}}
+			}
 		case "errors.As":
 			return e.modelErrorsAs(st, ci)
 		case "sync.Map.Range":
